@@ -49,7 +49,7 @@ pub fn log_state(sess: &mut Session) -> J {
             }
             Err(e) => {
                 m.insert("apierr".into(), json!(e));
-                m.insert("api".into(), json!({"tables": [], "streams": [], "cp": 0, "ptype": "", "summary": {}}));
+                m.insert("api".into(), json!({"tables": [], "streams": [], "sig": false, "cp": 0, "ptype": "", "summary": {}}));
             }
         }
         m.insert("lenok".into(), json!(sess.last_len_ok));
@@ -84,7 +84,7 @@ pub fn log_state(sess: &mut Session) -> J {
         }
         Err(e) => {
             m.insert("imgerr".into(), json!(e));
-            m.insert("img".into(), json!({"ptype": "", "cp": 0, "pool": [], "tables": [], "streams": [], "sum": {"bad": 0}, "sumerrs": [], "mode": "none"}));
+            m.insert("img".into(), json!({"ptype": "", "cp": 0, "pool": [], "tables": [], "streams": [], "sig": false, "sum": {"bad": 0}, "sumerrs": [], "mode": "none"}));
         }
     }
     J::Object(m)
